@@ -110,7 +110,7 @@ func denseBinS(op string, a *tensor.Dense, s interface{}, left bool, o []tensor.
 type unF func(a tensor.Tensor, opts ...tensor.FuncOpt) (tensor.Tensor, error)
 
 var unFuncs = map[string]unF{
-	"neg": tensor.Neg, "square": tensor.Square, "cube": tensor.Cube, "abs": tensor.Abs, "sign": tensor.Sign,
+	"neg": tensor.Neg, "square": tensor.Square, "cube": tensor.Cube, "abs": tensor.Abs, "sign": tensor.Sign, "sqrt": tensor.Sqrt,
 }
 
 func init() {
